@@ -213,7 +213,7 @@ def cfg_checks(ctx, binp, spans):
             if o.get("kind") != "cfg" or not rt or "cfg1" not in rt or o["real"]["nonfinite"]:
                 continue
             cases.append((f"a{o['id']}", f"run_as_config UU {cc.spdc_term(o['real']['setup'])} {cc.cfg_term(rt['cfg1'])}"))
-            index[f"a{o['id']}"] = (o, "as_config", rt["cfg1"])
+            index[f"a{o['id']}"] = (o, "as_config", rt["cfg1"], o["real"]["setup"])
             sec = rt["second"]
             if sec["class"] == "ok":
                 # second conversion: every field explicit; only compute_sign is consulted
@@ -221,17 +221,17 @@ def cfg_checks(ctx, binp, spans):
                 orc = {"dkz0": None, "snell_inv": [], "waist_pos": []}
                 tbl = cc.otable_term(orc).replace("t_dkz0 := 1", "t_dkz0 := " + ("(-1)" if sg == "Neg" else "1"))
                 cases.append((f"b{o['id']}", f"run_try_as_spdc UU MP {tbl} {cc.cfg_term(rt['cfg1'])} (Some {cc.spdc_term(sec['setup'])})"))
-                index[f"b{o['id']}"] = (o, "second_conversion", rt["cfg1"])
+                index[f"b{o['id']}"] = (o, "second_conversion", rt["cfg1"], sec["setup"])
                 cases.append((f"d{o['id']}", f"run_as_config UU {cc.spdc_term(sec['setup'])} {cc.cfg_term(sec['cfg2'])}"))
-                index[f"d{o['id']}"] = (o, "as_config_2", sec["cfg2"])
+                index[f"d{o['id']}"] = (o, "as_config_2", sec["cfg2"], sec["setup"])
         res = run_compute_cases(ctx, "C16rt", cc.IMPORTS, defs, cases, shards=NCPU)
         ctx.cov["obligations"] += len(cases)
-        for cid, (o, what, c1) in index.items():
+        for cid, (o, what, c1, stp) in index.items():
             rep = cc.parse_report(res.get(cid, ""))
             detail = {"config": o["json"], "what": what, "model": rep}
             if rep is None or rep["class"] != "ok" or rep["mis"] or rep["nf"]:
                 # a rounding tie between exact and binary64 arithmetic is not a disagreement
-                if rep and rep["class"] == "ok" and rep["mis"] and what.startswith("as_config") and all(tie_field(o, c1, f, udiv) for f in rep["mis"]):
+                if rep and rep["class"] == "ok" and rep["mis"] and what.startswith("as_config") and all(tie_field(stp, c1, f, udiv) for f in rep["mis"]):
                     ctx.count("rounding_tie_skipped")
                     ctx.cov["discharged"] += 1
                     continue
@@ -282,6 +282,9 @@ def cfg_checks(ctx, binp, spans):
         sh = o["shadow"]["shadow"]
         if sh is not None:
             for part in ("crystal", "signal", "idler", "pump", "pp", "zs", "zi"):
+                if sh[part] is None and isinstance(s[part], str) and not is_finite_hex(s[part]):
+                    ctx.count("nonfinite_field_left_to_C17")
+                    continue
                 if sh[part] != s[part]:
                     ctx.violation("S5", f"the setup's {part} differs from what the explicit optimum / conversion calls return on the setup built so far",
                                   {"kind": "auto_vs_explicit", "part": part}, dict(detail, setup=s[part], explicit=sh[part]))
@@ -367,14 +370,17 @@ def lossy_fields(rt):
     return out
 
 
-def tie_field(o, c1, field, udiv):
+def tie_field(setup, c1, field, udiv):
     """is the disagreement on `field` explained by a rounding tie (x*1e4 within 1e-6 of a half-integer)?"""
     m = {"pump.average_power_mw": "pump.power_mw", "deff_pm_per_volt": "deff", "crystal.pm_type": None}
     f = m.get(field, field)
     if f is None:
         return False
+    if f == "crystal.temperature_c":
+        x = (f64_of_hex(setup["crystal"]["temperature"]) - 273.15) * 1e4
+        return abs(abs(x - int(x)) - 0.5) < 1e-5
     if f == "periodic_poling.poling_period_um":
-        pp = o["real"]["setup"]["pp"]
+        pp = setup["pp"]
         if not pp.get("on"):
             return False
         x = f64_of_hex(pp["period"]) / 1e-6 * 1e4
@@ -384,8 +390,7 @@ def tie_field(o, c1, field, udiv):
         return False
     for cpath, spath, unit, rounded in NUM_FIELDS:
         if cpath == f:
-            src = o["real"]["setup"] if "second" not in str(field) else o["real"]["setup"]
-            sv = get(src, spath)
+            sv = get(setup, spath)
             if sv is None:
                 return False
             x = f64_of_hex(sv) / (udiv[unit] if isinstance(unit, str) else unit) * 1e4
@@ -427,6 +432,9 @@ def run(ctx):
     for m in msgs:
         ctx.proof_failures.append(("Gen/Config*.v", "translator", m))
     proved = (not msgs) and prove(ctx, "C16")
+    okf, _, _ = coq_build(ctx, ["Findings/C16_wrap.vo"])
+    if not okf:
+        ctx.note("remark C16/wrap: Findings/C16_wrap.v no longer compiles (the model or the code changed)")
     nbad = 0
     if not getattr(ctx, "replay", None):
         if os.path.exists(os.path.join(COQ, "Model", "Names.vo")):
